@@ -584,6 +584,10 @@ val split_dot : bytes0 -> bytes0 -> bytes0 list
 
 val stoi : bytes0 -> z
 
+val has_number : bytes0 -> bool
+
+val stoi_opt : bytes0 -> z option
+
 val file_ext_loop :
   bytes0 list -> cstate -> bytes0 -> bytes0 list -> cstate * diag list
 
@@ -983,7 +987,7 @@ val fresh : st1 -> nat -> bool -> nat -> st1
 
 val step0 : nat -> st1 -> op -> st1
 
-val run0 : nat -> op list -> st1
+val cl_run : nat -> op list -> st1
 
 val walk : nat -> (nat -> nat) -> nat -> nat list
 
@@ -991,4 +995,4 @@ val to_list : nat -> st1 -> nat list
 
 val to_list_back : nat -> st1 -> nat list
 
-val observe : nat -> st1 -> (nat * nat) list * nat list
+val cl_observe : nat -> st1 -> (nat * nat) list * nat list
